@@ -90,8 +90,8 @@ Proof. intros. apply run_shape. unfold lt. apply le_n. Qed.
 Theorem C02_terminates : forall reg rp ts, ~ In (Err EFuel) (run_packets reg rp ts).
 Proof. exact run_packets_no_fuel. Qed.
 
-Theorem C02_loops_terminate : forall reg rp k self ts,
-  loop (S (List.length ts)) (child_of reg rp k) self ts <> LFuel /\
+Theorem C02_loops_terminate : forall reg rp sns k self ts,
+  loop (S (List.length ts)) (child_of reg rp sns k) self ts <> LFuel /\
   loop (S (List.length ts)) skip_h self ts <> LFuel /\
   loop (S (List.length ts)) (fwd_child rp) self ts <> LFuel /\
   loop (S (List.length ts)) (deleg_child rp) self ts <> LFuel /\
